@@ -43,11 +43,10 @@ func (p *ConfigProp[T]) Overwrite(value T) {
 	p.onChange.Fire(value)
 }
 
-// Stages the new value, keeping the old. The change is not committed until CommitStaged is called.
+// Stages the new value, keeping the old. The change is not committed until CommitStaged is called,
+// and nobody is told about it until ConfirmCommitted is called.
 func (p *ConfigProp[T]) Stage(newValue T) {
 	commit, _ := p.value.Load()
-
-	oldVal := commit.ref().Original()
 
 	// Copy the old Overwritable to keep any command-line overwrites.
 	overwritable := commit.Value()
@@ -55,18 +54,39 @@ func (p *ConfigProp[T]) Stage(newValue T) {
 	commit.Stage(overwritable)
 
 	p.value.Store(commit)
-
-	if p.requiresRestart && (oldVal != newValue) {
-		setRestartNeeded()
-	}
-
-	p.onChange.Fire(newValue)
 }
 
 func (p *ConfigProp[T]) CommitStaged() {
 	commit, _ := p.value.Load()
 	commit.Commit()
 	p.value.Store(commit)
+}
+
+// Undoes Stage and CommitStaged of an update that turned out to be rejected.
+func (p *ConfigProp[T]) RollbackStaged() {
+	commit, _ := p.value.Load()
+	commit.Rollback()
+	p.value.Store(commit)
+}
+
+// Makes the committed update final: flags a required restart and notifies the subscribers.
+// Must only be called once the whole update has been verified and persisted.
+func (p *ConfigProp[T]) ConfirmCommitted() {
+	commit, _ := p.value.Load()
+
+	newValue := commit.ref().Original()
+	changed := true
+	if prev, ok := commit.Previous(); ok {
+		changed = prev.Original() != newValue
+	}
+	commit.Confirm()
+	p.value.Store(commit)
+
+	if p.requiresRestart && changed {
+		setRestartNeeded()
+	}
+
+	p.onChange.Fire(newValue)
 }
 
 func (p *ConfigProp[T]) String() string {
